@@ -237,10 +237,12 @@ class Recorder:
                 self.extra[k] = v
 
 
-def write_replay(pid, check, case, msg, sig):
+def write_replay(pid, check, case, msg, sig, detail=None):
     d = os.path.join(VERIF_ROOT, "replays", pid)
     os.makedirs(d, exist_ok=True)
     body = {"property": pid, "check": check, "case": jsonable(case), "message": msg, "sig": jsonable(sig)}
+    if detail is not None:
+        body["detail"] = jsonable(detail)
     h = case_hash([check, case])
     p = os.path.join(d, f"{check}-{h}.json")
     with open(p, "w") as f:
